@@ -434,6 +434,15 @@ fn cmd_check(prop_s: &str, tier: &str) -> i32 {
         },
     );
     let batch_wall = t0.elapsed().as_secs_f64();
+    {
+        let panics = pool::HARNESS_PANICS.lock().unwrap();
+        if !panics.is_empty() {
+            for (i, m) in panics.iter().take(5) {
+                eprintln!("HARNESS ERROR: the simulator itself panicked in run {i}: {m}");
+            }
+            return 2;
+        }
+    }
 
     // ------------------------------------------------------------------ aggregate
     let mut evaluations = 0u64;
